@@ -39,6 +39,7 @@ static int nperm;
 #define MAXNAMES 24
 static char names[MAXNAMES][48];
 static int nnames;
+static int nlarge;		/* malloc'ed scratchpad blocks alive (counted from the trace) */
 static int collect_names;	/* only while a fuzzed source is compiled */
 
 static void note_name (const char *n, int isperm)
@@ -165,7 +166,7 @@ static void c02_trace (const char *ev, long cursor, long size)
     {
       /* scratchpad: shadow stack of the starts of the strings on the pad (offsets into scratchblock) */
       static long starts[4200];
-      static int nst, nlarge;
+      static int nst;
       unsigned char *base = scratch_end - SCRATCHPAD_SIZE;
       long last = scr_last - base, tail = scr_tail - base;
       if (!strcmp (ev, "scr.push"))
@@ -210,6 +211,8 @@ static void c02_trace (const char *ev, long cursor, long size)
                 (int) perm[i].ihe->dn.global_num, (int) perm[i].ihe->dn.class_num, (int) perm[i].ihe->dn.local_num);
       vh_out ("locals.end cur=%d max=%d name=%ld type=%ld", current_number_of_locals, max_num_locals,
               (long) (locals_ptr - locals), (long) (type_of_locals_ptr - type_of_locals));
+      vh_out ("scratch.end last=%ld tail=%ld large=%d", (long) (scr_last - (scratch_end - SCRATCHPAD_SIZE)),
+              (long) (scr_tail - (scratch_end - SCRATCHPAD_SIZE)), nlarge);
     }
 }
 
